@@ -117,7 +117,7 @@ def register(R, tier="quick"):
 
     R.contract(K + "_next_matcher", props=PROPS, setup=mk, cover_hint=hint, requires=[pre_next_matcher],
                ensures=[post_next_matcher], modifies=["self.current"],
-               loops={0: LoopSpec(inv=[nm_inv, "matchers is self.matchers"])},
+               loops={0: LoopSpec(inv=[nm_inv])},
                canaries=[Canary("stops-on-inactive", "not matchers[self.current].is_active()", "matchers[self.current].is_active()")],
                note="moves `current` to the first active child at or after it; the children passed over are exhausted")
 
@@ -138,8 +138,7 @@ def register(R, tier="quick"):
                raises={"ReadTooFar": "False"},
                canaries=[Canary("target-not-rebased", "mr.skip_to(id - offsets[self.current])", "mr.skip_to(id)"),
                          Canary("stays-on-exhausted-child", "self._next_matcher()", "pass")],
-               loops={0: LoopSpec(inv=["minv(self)", "matchers is self.matchers", "offsets is self.offsets",
-                                       "forall(lambda s: implies(mem(self, s) and s >= id, s >= pos(self)))"],
+               loops={0: LoopSpec(inv=["minv(self)", "forall(lambda s: implies(mem(self, s) and s >= id, s >= pos(self)))"],
                                   modifies=["self.matchers", "self.current"])},
                note="skips inside the current segment with the target rebased to local numbers, then moves on")
 
